@@ -69,11 +69,16 @@ def resolve(x, d):
     return x
 
 
-def with_paths(x, d):
+def with_paths(x, d, memo=None):
+    """replace the file-tag placeholders by tags with real paths; objects that occur twice stay ONE object (YAML aliases)"""
+    memo = {} if memo is None else memo
     if isinstance(x, dict):
-        return {k: with_paths(v, d) for k, v in x.items()}
+        if id(x) not in memo:
+            memo[id(x)] = out = {}
+            out.update({k: with_paths(v, d, memo) for k, v in x.items()})
+        return memo[id(x)]
     if isinstance(x, list):
-        return [with_paths(v, d) for v in x]
+        return [with_paths(v, d, memo) for v in x]
     if isinstance(x, TextRef):
         return TextRef(str(pathlib.Path(d, "t.txt")))
     if isinstance(x, BinRef):
@@ -261,6 +266,16 @@ def rand_cases(rnd: random.Random, n: int):
                 if rnd.random() < 0.15:
                     s["logging"] = {"loggers": {"p.q": {"level": "WARNING"}}}
                 sv[name] = s if rnd.random() > 0.04 else None
+            # mappings shared between sections (YAML anchors/aliases, the documented multi-service pattern): the same object
+            # appears twice, so yaml.dump writes an anchor and an alias and the loader hands asphalt one shared dict
+            withc = [k for k, v in sv.items() if isinstance(v, dict) and isinstance(v.get("component"), dict)]
+            if len(withc) >= 2 and rnd.random() < 0.5:
+                a, b = rnd.sample(withc, 2)
+                shared = rand_comp(1)
+                shared.setdefault("a", 1)
+                sv[a]["component"]["n"] = shared
+                sv[b]["component"]["n"] = shared
+                f["__shared__"] = (a, b)
             f["services"] = sv
         return f
 
@@ -277,9 +292,16 @@ def rand_cases(rnd: random.Random, n: int):
 
     cases = []
     for i in range(n):
-        cases.append({"id": f"r{i}", "files": [rand_file() for _ in range(rnd.choice([1, 2, 2, 3]))],
-                      "sets": [rand_set() for _ in range(rnd.choice([0, 0, 1, 2, 3]))],
-                      "flag": rnd.choice(["", "", "", "one", "two", "nope"]), "env": rnd.choice(["", "", "", "two", "default"])})
+        files = [rand_file() for _ in range(rnd.choice([1, 2, 2, 3]))]
+        flag = rnd.choice(["", "", "", "one", "two", "nope"])
+        sh = [f.pop("__shared__") for f in files if "__shared__" in f]
+        if sh and rnd.random() < 0.7:
+            # a later file overrides inside the mapping that two services share; the OTHER sharer is the one that runs
+            a, b = sh[0]
+            files.append({"services": {a: {"component": {"n": {rnd.choice(["a", "b.c", "zz"]): rnd.choice([7, "late", None])}}}}})
+            flag = b
+        cases.append({"id": f"r{i}", "files": files, "sets": [rand_set() for _ in range(rnd.choice([0, 0, 1, 2, 3]))],
+                      "flag": flag, "env": rnd.choice(["", "", "", "two", "default"])})
     return cases
 
 
